@@ -149,6 +149,8 @@ CLAIMS["C13"] = dict(
          "guard, or panic with a cancel pending (LockResult of every later acquisition and is_poisoned judged); RwLock panic "
          "units replayed from RwLock.tla; a coroutine and coroutine-locals on the stack of a panicked one; scope / select "
          "owners with panicking children and arms. Oracle: payload at the right JoinHandle only, others finish, poison state.",
+    text_extra="Reuse.tla covers an unwinding stack whose destructor yields (user panic with a pending cancel; Cancel unwind); PanicCount.tla models "
+               "std's per-thread panic counter against a coroutine that migrates in mid-unwind (F25, open: process abort).",
     note="Aggregates units of C12, C14, C15, C16 that involve a panic; worker-thread survival is implied by every later "
          "execution in the same process running normally (a dead worker shows as a hang).",
     design_ref="DESIGN.md §6 C13",
@@ -259,6 +261,9 @@ CLAIMS["C17"] = dict(
          "and buffer sizes, 3-12 connections, coroutine and thread readers) and datagrams over UDP / Unix datagram sockets. "
          "Oracle: bytes received = bytes sent (position-dependent pattern), read returns 0 only after the peer closed, datagram "
          "sizes and content, the reader never stays suspended while the kernel has data or EOF for it, no panic on a runtime thread.",
+    text_extra="FdReuse.tla models the registration of a socket against the life cycle of its fd NUMBER (close vs EPOLL_CTL_DEL by number vs "
+               "a concurrent socket()): TLC gives the counter-example for the drop order CoIo had (F26, repaired) and verifies the other; the "
+               "`fdreuse` scenario explores drop / create / read on the real code for CoIo and TcpStream, every execution validated by TLC.",
     note="Only the read side is explored at step granularity (write / accept / connect share the protocol and are exercised by the "
          "bulk scenario); the first optimistic syscall of CoIo::read has no hook (it is atomic with the preceding scenario point).",
     design_ref="DESIGN.md §6 C17",
@@ -272,6 +277,8 @@ CLAIMS["C18"] = dict(
          "an early completion followed by a longer wait, a cancel of a blocked and of a timed read. Oracle: TimedOut only with "
          "a time-out set and no earlier than it, the stream content, no early failure of a later read, a cancelled reader ends "
          "and its socket is closed (the peer sees it), nobody stays suspended, no panic on a runtime thread.",
+    text_extra="IoSharedCancel.tla: a cancel that leaves the time-out entry of a reader armed on a socket the reader does not own (F27, open; "
+               "shown by the `ioshared` scenario). A missed_readiness of a timed-read unit counts only if it shows again when its schedule is replayed.",
     note="Known finding F15 (two signatures) is reported as KNOWN-FINDING: the scenario process has to be restarted after it, the "
          "exploration goes on with the next seed. accept / connect time-outs are not covered.",
     design_ref="DESIGN.md §6 C18",
